@@ -54,9 +54,9 @@ def generate(prng, tier, index):
     kind = prng.choice(KINDS)
     length = prng.randrange(1, 61 if tier == "quick" else 121)
     if prng.random() < 0.03:        # a size crossing some threshold (16, 32, 64, 128 ...) needs a large universe
-        n = prng.choice((17, 33, 65, 70, 129, 200))
+        n = prng.choice((17, 33, 65, 70, 129, 200, 257, 342, 513, 1025))
         kind = prng.choice(("int", "edge"))
-        length = prng.randrange(n, 3 * n)
+        length = prng.randrange(n, 3 * n) if n <= 200 else prng.randrange(n, n + 400)
     uni = _universe(prng, kind, n)
     variant = "faults" if index % 3 == 0 else "clean"
     # swarm: per-run operation mix
@@ -64,6 +64,9 @@ def generate(prng, tier, index):
          "draw": prng.choice((0, 2, 5)), "contains": prng.choice((0, 1)), "iter": prng.choice((0, 1)),
          "drain": prng.choice((0, 0, 1)), "cover": prng.choice((0, 0, 1)),
          "remove_absent": (prng.choice((1, 2)) if variant == "faults" else 0)}
+    if n > 130:
+        w["cover"] = 0          # a coverage burst costs n (ln n + 30) instrumented draws; small universes exercise that clause
+        w["drain"] = 0
     names = [k for k in w if w[k] > 0]
     weights = [w[k] for k in names]
     ops = []
